@@ -517,3 +517,53 @@ package writer
 //@     assert [each-event-goes-into-a-block-with-room-or-one-just-flushed] ghost(0, "wipFlushedNow") == 1 || (segstore.wipBlock.blockSummary.RecCount < MAX_RECS_PER_WIP && segstore.wipBlock.maxIdx + MAX_RECORD_SIZE < WIP_SIZE)
 //@     ghostset ghost(0, "wipFlushedNow") = 0
 //@ end
+
+// C15 (a document reported as created becomes searchable): flush, rotation and
+// shutdown walk the map allSegStores, so a stream's segment store must never be
+// REPLACED in that map — a request that still holds the replaced store would
+// buffer its acknowledged documents where no flush ever looks.  createSegStore
+// therefore inserts only after it has seen, under allSegStoresLock, that the
+// stream has no store yet.  Ghost ssAbsentSeen: that check was made on this
+// path (sequential reasoning; that the map is written only under the lock is an
+// assumption about the other writers).
+//@ ghostdecl ssAbsentSeen int
+//@ func createSegStore
+//@   props C15
+//@   assumecalleerequires
+//@   ghostinit ghost(0, "ssAbsentSeen") == 0
+//@   site call NewSegStore #1:
+//@     ghostset ghost(0, "ssAbsentSeen") = ite(haskey(allSegStores, streamid), 0, 1)
+//@   site mapupdate allSegStores[streamid] #1:
+//@     assert [a-streams-store-is-created-only-when-it-has-none] ghost(0, "ssAbsentSeen") == 1
+//@ end
+
+// C04 (sum / avg of a column equal the sum of its values): the ingest-time
+// accumulator keeps a column's running sum as an integer until the first float
+// arrives and as a float from then on (Sum.Ntype says which of IntgrVal /
+// FloatVal is THE sum; the .sst writer and readers look at that one only).
+// Every number that arrives is added to the representation in force: an integer
+// after a float is added to the float sum.
+//@ func processStats
+//@   props C04
+//@   requires stats != nil && stats.NumStats != nil
+//@   ensures [counted] stats.Count == old(stats.Count) + 1 && stats.NumStats.NumericCount == old(stats.NumStats.NumericCount) + 1
+//@   ensures [float-into-float-sum] implies(inNumType == SS_FLOAT64 && old(stats.NumStats.Sum.Ntype) == SS_DT_FLOAT, stats.NumStats.Sum.Ntype == SS_DT_FLOAT && feq(stats.NumStats.Sum.FloatVal, old(stats.NumStats.Sum.FloatVal) + fltVal))
+//@   ensures [float-upgrades-an-integer-sum] implies(inNumType == SS_FLOAT64 && old(stats.NumStats.Sum.Ntype) != SS_DT_FLOAT, stats.NumStats.Sum.Ntype == SS_DT_FLOAT && feq(stats.NumStats.Sum.FloatVal, float64(old(stats.NumStats.Sum.IntgrVal)) + fltVal))
+//@   ensures [integer-into-float-sum] implies((inNumType == SS_INT8 || inNumType == SS_INT16 || inNumType == SS_INT32 || inNumType == SS_INT64) && old(stats.NumStats.Sum.Ntype) == SS_DT_FLOAT, stats.NumStats.Sum.Ntype == SS_DT_FLOAT && feq(stats.NumStats.Sum.FloatVal, old(stats.NumStats.Sum.FloatVal) + float64(intVal)))
+//@   ensures [integer-into-integer-sum] implies((inNumType == SS_INT8 || inNumType == SS_INT16 || inNumType == SS_INT32 || inNumType == SS_INT64) && old(stats.NumStats.Sum.Ntype) != SS_DT_FLOAT, stats.NumStats.Sum.Ntype == old(stats.NumStats.Sum.Ntype) && stats.NumStats.Sum.IntgrVal == old(stats.NumStats.Sum.IntgrVal) + intVal)
+//@   ensures [unsigned-into-float-sum] implies((inNumType == SS_UINT8 || inNumType == SS_UINT16 || inNumType == SS_UINT32 || inNumType == SS_UINT64) && old(stats.NumStats.Sum.Ntype) == SS_DT_FLOAT, feq(stats.NumStats.Sum.FloatVal, old(stats.NumStats.Sum.FloatVal) + float64(int64(uintVal))))
+//@ end
+
+// C01 (no value migrates to another event): the per-block table of column
+// offsets is reused for all blocks of a segment; a Length of 0 is what tells a
+// reader that a column is ABSENT from the block.  Every flush therefore starts
+// from a table in which every slot says "absent" — whether or not the table had
+// to grow — or a column missing from this block keeps the previous block's
+// offset and length and readers hand out another block's values.
+//@ func (*SegStore).initBmh
+//@   props C01
+//@   requires segstore != nil
+//@   loop 1:
+//@     invariant [slots-so-far-say-absent] 0 <= i && forall(k, 0, i, segstore.wipBlock.bmiColOffLen[k].Length == 0)
+//@   ensures [every-slot-starts-the-block-as-absent] forall(k, 0, len(segstore.wipBlock.bmiColOffLen), segstore.wipBlock.bmiColOffLen[k].Length == 0)
+//@ end
